@@ -841,6 +841,38 @@ class JoinBeginMethod(Method):
                 + self.block(self.fdef.body, self.default_end))
 
 
+class JoinFinishMethod(JoinBeginMethod):
+    """`Join._finish_apply(lhs, rhs)` (T-f): the join-identity short-cuts, the engine and predicate-support checks;
+    `super()._finish_apply(lhs, rhs)` is the base-class construction of the `BinaryOperationRelation` with
+    `columns = lhs.columns | rhs.columns`."""
+
+    DICT = dict(JoinBeginMethod.DICT, **{
+        "self.predicate.is_supported_by(lhs.engine)": ("(Pred.isSupportedBy (Rel.engine lhs).kind j.pred)", "bool"),
+    })
+
+    def __init__(self, cls):
+        super().__init__(cls)
+        self.name = "_finish_apply"
+        f = inspect.getattr_static(cls, "_finish_apply")
+        src = textwrap.dedent(inspect.getsource(f))
+        self.fdef = next(n for n in ast.walk(ast.parse(src)) if isinstance(n, ast.FunctionDef))
+
+    def ret(self, e):
+        src = ast.unparse(e)
+        if src == "rhs":
+            return "(Except.ok BRes.rhs)"
+        if src == "lhs":
+            return "(Except.ok BRes.lhs)"
+        if src == "super()._finish_apply(lhs, rhs)":
+            return ("(Except.ok (BRes.new (Rel.binary (BOp.join j) lhs rhs "
+                    "(Cols.union (Rel.columns lhs) (Rel.columns rhs)))))")
+        raise Untranslatable(f"return {src[:60]}")
+
+    def lean(self):
+        return ("def Join_finish_apply (j : JoinOp) (lhs rhs : Rel) : Except Err BRes :=\n  "
+                + self.block(self.fdef.body, self.default_end))
+
+
 REL_CTORS = {
     "LeafRelation": ".leaf _ _ _ _ _ _ _ _",
     "Materialization": ".mat _ _ {t}",
@@ -1003,6 +1035,8 @@ def gen_rel_ops(problems: list[str]) -> str:
          "Except Err (PJoin × Engine) :=\n  Except.error Err.fuel"),
         ("Join._begin_apply", lambda: JoinBeginMethod(r.Join),
          "def Join_begin_apply (j : JoinOp) (lhs rhs : Rel) : Except Err BOp :=\n  Except.error Err.fuel"),
+        ("Join._finish_apply", lambda: JoinFinishMethod(r.Join),
+         "def Join_finish_apply (j : JoinOp) (lhs rhs : Rel) : Except Err BRes :=\n  Except.error Err.fuel"),
         ("Chain._begin_apply", lambda: ChainMethod(r.Chain),
          "def Chain_begin_apply (lhs rhs : Rel) : Except Err BOp :=\n  Except.error Err.fuel"),
     ]
